@@ -145,6 +145,13 @@ class RF:
             c = self.d.const_value()
             self.n = Poly({m: v / c for m, v in self.n.t.items()})
             self.d = Poly.const(1)
+        elif not self.d.is_const() and self.d.t:
+            # one representative per value: the denominator's first monomial (fixed order) gets coefficient 1
+            k = min(self.d.t, key=repr)
+            c = self.d.t[k]
+            if c != 1:
+                self.n = Poly({m: v / c for m, v in self.n.t.items()})
+                self.d = Poly({m: v / c for m, v in self.d.t.items()})
 
     @staticmethod
     def of(x) -> "RF":
